@@ -128,7 +128,7 @@ def extract(repo, template, out_path):
     return fns
 
 
-def run(P, repo, build_dir, timeout=600):
+def run(P, repo, build_dir, timeout=600, tier="quick"):
     """-> list of result dicts: status in ok | fail | undecided"""
     res = []
     for h in HARNESSES.get(P, []):
@@ -141,7 +141,11 @@ def run(P, repo, build_dir, timeout=600):
             r.update(status="undecided", reason="extractor anchor lost: %s" % e)
             res.append(r)
             continue
-        r["native"] = native(path, h)
+        hn = dict(h)
+        if tier == "thorough":
+            # larger enumerated domains in the thorough tier
+            hn["native"] = dict(h.get("native", {}), dom64=12, dom8=5, max_runs=2000000000)
+        r["native"] = native(path, hn, timeout=900 if tier == "thorough" else 300)
         if r["native"]["status"] == "fail":
             # a concrete failing input on the extracted real text: decisive, whatever Kani says
             r.update(status="fail", failed=[h["obligation"] + " (native exhaustive enumeration)"], output=r["native"]["input"], cmd=r["native"]["cmd"])
